@@ -205,8 +205,11 @@ func runReplay(j Job) (res Result) {
 		tx := new(lib.Transaction)
 		if e := lib.Unmarshal(b.Raw, tx); e == nil {
 			sb, _ := tx.GetSignBytes()
-			pub, sig := b.Actual.SignAs(sb, []int{0, 1, 2})
-			opts.ExtraSig = append(opts.ExtraSig, [2][]byte{pub, sig})
+			// ... and by the other member pairs: every one of these byte strings carries the same signed content
+			for _, pos := range [][]int{{0, 1, 2}, {0, 2}, {1, 2}} {
+				pub, sig := b.Actual.SignAs(sb, pos)
+				opts.ExtraSig = append(opts.ExtraSig, [2][]byte{pub, sig})
+			}
 		}
 	}
 	xs := txlab.Xforms(tree, opts)
@@ -291,6 +294,46 @@ func runReplay(j Job) (res Result) {
 		}
 		ex, diff, e := probe(l, [][]byte{b.Raw, v.Raw}, alone.State)
 		record("same-block", v, 1, "block k behind the original", ex, diff, e)
+	}
+	{ // three forms of the same signed content in ONE block: [original, v, v'] must equal [original]
+		// (a rejected second form must not re-open the door for a third one); one representative per class
+		var reps []txlab.Variant
+		seenClass := map[string]bool{}
+		// forms that are valid signatures of the same content come first (they are the ones a de-duplication
+		// by content has to stop), then one representative of the other classes
+		ordered := make([]txlab.Variant, 0, len(d1))
+		for _, pref := range []string{"multisig-add-cosigner", "signature-form", "pubkey-encoding"} {
+			for _, v := range d1 {
+				if strings.Contains(v.ClassKey(), pref) {
+					ordered = append(ordered, v)
+				}
+			}
+		}
+		for _, v := range d1 {
+			if !strings.Contains(v.ClassKey(), "multisig-add-cosigner") && !strings.Contains(v.ClassKey(), "signature-form") && !strings.Contains(v.ClassKey(), "pubkey-encoding") {
+				ordered = append(ordered, v)
+			}
+		}
+		for _, v := range ordered {
+			if v.Control || bytes.Equal(v.Raw, b.Raw) {
+				continue
+			}
+			if seenClass[v.ClassKey()] && !strings.Contains(v.ClassKey(), "multisig-add-cosigner") {
+				continue
+			}
+			seenClass[v.ClassKey()] = true
+			reps = append(reps, v)
+			if len(reps) == 8 {
+				break
+			}
+		}
+		for i := 0; i < len(reps) && !late(); i++ {
+			for k := i + 1; k < len(reps); k++ {
+				ex, diff, e := probe(l, [][]byte{b.Raw, reps[i].Raw, reps[k].Raw}, alone.State)
+				v := txlab.Variant{Classes: append(append([]string{}, reps[i].Classes...), reps[k].Classes...), Desc: "three forms in one block: original, " + reps[i].Desc + ", " + reps[k].Desc, Raw: reps[k].Raw}
+				record("same-block", v, 2, "block k behind the original and another form", ex, diff, e)
+			}
+		}
 	}
 	{ // byte-identical twice in one block: the block is refused or equals [original]
 		ex, diff, e := probe(l, [][]byte{b.Raw, b.Raw}, alone.State)
@@ -570,6 +613,78 @@ func runNonce(j Job) (res Result) {
 	return
 }
 
+// runNonceHistory: the nonce floor of an account is part of its record and must survive everything that
+// rewrites the record: receiving funds, paying for later transactions, a vesting tranche of the account
+// running out. After each such event every nonce below the floor is probed again.
+func runNonceHistory(j Job) (res Result) {
+	res = newResult()
+	w := txlab.NewWorld()
+	a := w.P[txlab.KETH][txlab.PA]
+	w.SetVesting(a.Addr, 1000, 1, 1, 6) // fully vested from height 6 on
+	l, err := txlab.NewLab(w, 2, nil)
+	if err != nil {
+		res.Err = err.Error()
+		return
+	}
+	defer l.Close()
+	mk := func(nonce, fee uint64) []byte {
+		raw, _, e := txlab.WrapRLP(&fsm.MessageSend{FromAddress: a.Addr, ToAddress: w.Recipient, Amount: 1000}, a, true,
+			txlab.TxOpts{Created: 1, Fee: fee, Net: w.NetworkID, Chain: w.ChainID, Nonce: nonce})
+		if e != nil {
+			panic(e)
+		}
+		return raw
+	}
+	giver := w.P[txlab.KBLS][txlab.PA]
+	give := func(seq uint64) []byte {
+		tx := txlab.Unsigned(&fsm.MessageSend{FromAddress: giver.Addr, ToAddress: a.Addr, Amount: 50 + seq}, txlab.TxOpts{Created: l.C.Height(), Time: txlab.BaseTime + 900 + seq, Fee: txlab.FeeDefault, Net: w.NetworkID, Chain: w.ChainID})
+		return txlab.SignNative(tx, giver, nil)
+	}
+	floor := uint64(0)
+	probeBelow := func(where string) {
+		empty := l.ProbeBlock(nil, false)
+		for _, n := range []uint64{0, 3, 5, 7} {
+			if n >= floor {
+				continue
+			}
+			raw := mk(n, 20100+n)
+			ex, diff, et := probe(l, [][]byte{raw}, empty.State)
+			res.Evaluations++
+			res.Outcomes[fmt.Sprintf("nonce-history|%s|executed=%v|%s", where, ex, txlab.ErrClass(et))]++
+			if ex {
+				res.Hits = append(res.Hits, Hit{Kind: "nonce", Class: "below-floor-after-account-rewrite", Where: where, Desc: fmt.Sprintf("RLP.V2 transaction with nonce %d executes although the account floor is %d", n, floor),
+					VarHex: hex.EncodeToString(raw), Diff: txlab.DescribeDiff(diff, w)})
+			}
+		}
+	}
+	type ev struct {
+		name string
+		txs  func() [][]byte
+		set  uint64 // floor after the event (0 = unchanged)
+	}
+	events := []ev{
+		{"nonce 5 used (height 3)", func() [][]byte { return [][]byte{mk(5, 20001)} }, 6},
+		{"account receives funds (height 4)", func() [][]byte { return [][]byte{give(1)} }, 0},
+		{"nonce 7 used (height 5)", func() [][]byte { return [][]byte{mk(7, 20002)} }, 8},
+		{"empty block (height 6, vesting tranche ends)", func() [][]byte { return nil }, 0},
+		{"account receives funds after the tranche ended (height 7)", func() [][]byte { return [][]byte{give(2)} }, 0},
+		{"account pays: nonce 9 used (height 8)", func() [][]byte { return [][]byte{mk(9, 20003)} }, 10},
+	}
+	for _, e := range events {
+		txs := e.txs()
+		cm, er := l.C.Step(env.BlockSpec{Proposer: 0, Txs: txs})
+		if er != nil || len(cm.BlockResult.Transactions) != len(txs) {
+			res.Err = fmt.Sprintf("nonce history event %q not committed: %v", e.name, er)
+			return
+		}
+		if e.set != 0 {
+			floor = e.set
+		}
+		probeBelow("after: " + e.name)
+	}
+	return
+}
+
 func runJob(j Job) (res Result) {
 	start := time.Now()
 	defer func() {
@@ -591,6 +706,8 @@ func runJob(j Job) (res Result) {
 		return runCross(j)
 	case "nonce":
 		return runNonce(j)
+	case "nonce-history":
+		return runNonceHistory(j)
 	}
 	res = newResult()
 	res.Err = "unknown part " + j.Part
@@ -647,7 +764,7 @@ func main() {
 	}
 	dl := jobDeadline(r, 85*time.Second, 25*time.Minute)
 	defer func() { _ = dl }()
-	jobs = append(jobs, Job{Part: "window"}, Job{Part: "nonce"})
+	jobs = append(jobs, Job{Part: "window"}, Job{Part: "nonce"}, Job{Part: "nonce-history"})
 	crossBases := bases[:1]
 	if !r.Quick() {
 		crossBases = bases
@@ -756,6 +873,9 @@ func main() {
 			sig = "C06:cross-executes:" + h.Class
 		case "nonce":
 			sig = "C06:nonce-floor:executes-below-floor"
+			if h.Class == "below-floor-after-account-rewrite" {
+				sig += ":after-account-rewrite"
+			}
 		}
 		what := fmt.Sprintf("base %s; %s at %s: %s\n   base bytes    %s\n   variant bytes %s\n   state beyond the reference block: %v\n   decodes to the same signed content: %v; %s",
 			h.Base, h.Kind, h.Where, h.Desc, h.BaseHex, h.VarHex, h.Diff, h.SameCont, h.Commit)
